@@ -18,11 +18,25 @@ structure HOp where
   op : Op
   up : List (EName × Bool)
 
+/-- a probe answer on the wire: `code` = HTTP status, or minus one for a hang (timeout), minus two or three for a connection closed or refused; `body_ok` -/
+def decodeAnswer (x : Json) : Except String ProbeAnswer := do
+  let code ← J.getInt x "code"
+  let bodyOk := (J.getBool x "body_ok").toOption.getD true
+  if code == -1 then pure .timeout
+  else if code < 0 then pure .transportError
+  else pure (.status code.toNat bodyOk)
+
+/-- the health an entry stands for: decided by the model (`gatewayHealthCheck`) when the entry carries the probe answer -/
+def decodeHealth (x : Json) : Except String Bool :=
+  match J.optObj x "code" with
+  | some _ => do pure (gatewayHealthCheck (← decodeAnswer x))
+  | none => J.getBool x "h"
+
 def decodeUp (j : Json) : Except String (List (EName × Bool)) :=
   match J.optObj j "up" with
   | none => pure []
   | some u => do
-    (← u.getArr?).toList.mapM fun x => do pure (← J.getHex x "n", ← J.getBool x "h")
+    (← u.getArr?).toList.mapM fun x => do pure (← J.getHex x "n", ← decodeHealth x)
 
 def decodeServer (j : Json) : Except String Server := do
   pure { endpoint := ← J.getHex j "ep", disabled := ← J.getBool j "dis" }
@@ -134,7 +148,7 @@ structure Acc where
 def decodeImplFired (j : Json) : Except String (List (Op × Out)) := do
   (← J.getArr j "fired").toList.mapM fun x => do
     let n ← J.getHex x "n"
-    pure (Op.probeFire n (← J.getBool x "h"), Out.fired n (← J.getNat x "gen"))
+    pure (Op.probeFire n (← decodeHealth x), Out.fired n (← J.getNat x "gen"))
 
 def doRun (a : Json) : Except String Json := do
   let ops ← J.getArr a "ops"
@@ -183,9 +197,13 @@ def doRun (a : Json) : Except String Json := do
   -- the abstract view after the whole implementation trace (for reports)
   pure <| J.obj [("steps", Json.arr acc.outs.toArray), ("model_judge", J.bool modelOK), ("impl_bad", implBad)]
 
+/-- `C03.healthy {code, body_ok}`: the model's decision for one probe answer -/
+def doHealthy (a : Json) : Except String Json := do pure (J.bool (gatewayHealthCheck (← decodeAnswer a)))
+
 def handle (m : String) (a : Json) : Option (Except String Json) :=
   match m with
   | "run" => some (doRun a)
+  | "healthy" => some (doHealthy a)
   | _ => none
 
 end KG.Driver.C03
